@@ -426,15 +426,20 @@ func (w *World) dynCallee(v ssa.Value, en *env) (*ssa.Function, *ssa.MakeClosure
 // calleeEnv resolves the single in-scope callee of a call (statically, by the preferred implementer, or
 // through a function-typed parameter in context) and the environment instantiating its parameters.
 func (w *World) calleeEnv(call ssa.CallInstruction, en *env) (*ssa.Function, *env) {
-	if g := w.PreferredCallee(call); g != nil {
-		return g, w.callEnv(g, call, en)
-	}
 	cc := call.Common()
-	if cc.IsInvoke() || cc.StaticCallee() != nil {
+	_, isClosureLit := cc.Value.(*ssa.MakeClosure)
+	if cc.IsInvoke() || cc.StaticCallee() != nil || isClosureLit {
+		if g := w.PreferredCallee(call); g != nil {
+			return g, w.callEnv(g, call, en)
+		}
 		return nil, nil
 	}
 	g, mc, men := w.dynCallee(cc.Value, en)
 	if g == nil {
+		// not resolvable in this context: the single function ever handed in, if there is exactly one
+		if g1 := w.PreferredCallee(call); g1 != nil && len(g1.Params) == len(cc.Args) && len(g1.FreeVars) == 0 {
+			return g1, w.callEnv(g1, call, en)
+		}
 		return nil, nil
 	}
 	params := map[string]*Expr{}
